@@ -290,7 +290,7 @@ func TextCells() []Cell {
 func StatusCells() []Cell {
 	var out []Cell
 	for _, st := range []string{"200", "201", "204", "404", "default", "2XX", "5XX"} {
-		for _, ck := range []string{"none", "json", "json-noschema", "octet", "text", "octet-noschema"} {
+		for _, ck := range []string{"none", "json", "json-noschema", "octet", "text", "octet-noschema", "text-params", "csv-upper"} {
 			for _, withDefault := range []bool{false, true} {
 				if st == "default" && withDefault {
 					continue
@@ -309,6 +309,12 @@ func StatusCells() []Cell {
 					r.ContentType = "application/octet-stream"
 				case "text":
 					r.ContentType = "text/plain"
+					r.Schema = spec.T("string")
+				case "text-params":
+					r.ContentType = "text/plain; charset=iso-8859-1"
+					r.Schema = spec.T("string")
+				case "csv-upper":
+					r.ContentType = "Text/CSV; charset=utf-8; header=present"
 					r.Schema = spec.T("string")
 				}
 				op.Responses = []*spec.Response{r}
@@ -351,13 +357,13 @@ func StatusCells() []Cell {
 // ---- security kinds --------------------------------------------------------------------------------
 
 var SchemeKinds = map[string]spec.SecScheme{
-	"bearer":       {Type: "http", Scheme: "bearer"},
-	"basic":        {Type: "http", Scheme: "basic"},
-	"apikey-hdr":   {Type: "apiKey", In: "header", Name: "X-Key"},
-	"apikey-query": {Type: "apiKey", In: "query", Name: "key"},
+	"bearer":        {Type: "http", Scheme: "bearer"},
+	"basic":         {Type: "http", Scheme: "basic"},
+	"apikey-hdr":    {Type: "apiKey", In: "header", Name: "X-Key"},
+	"apikey-query":  {Type: "apiKey", In: "query", Name: "key"},
 	"apikey-cookie": {Type: "apiKey", In: "cookie", Name: "sid"},
-	"oauth2":       {Type: "oauth2"},
-	"oidc":         {Type: "openIdConnect"},
+	"oauth2":        {Type: "oauth2"},
+	"oidc":          {Type: "openIdConnect"},
 }
 
 func SecurityCells() []Cell {
@@ -427,6 +433,7 @@ var BaseForms = []BaseForm{
 	{Name: "flag", Flag: "/v1", Want: "/v1"},
 	{Name: "flag-slash", Flag: "/v1/", Want: "/v1"},
 	{Name: "flag-over-servers", Servers: []spec.Server{{URL: "/v9"}}, Flag: "/v1", Want: "/v1"},
+	{Name: "flag-root-over-servers", Servers: []spec.Server{{URL: "https://example.com/v9/"}}, Flag: "/", Want: ""},
 	{Name: "two-servers", Servers: []spec.Server{{URL: "/v1"}, {URL: "/v2"}}, Want: "/v1"},
 }
 
